@@ -94,16 +94,16 @@ func genBatches(t *rapid.T, keyThis bool) ([]gen.Seq, poolInfo) {
 	if vt.Thorough() {
 		maxVals = 60
 	}
-	nb := rapid.IntRange(1, 4).Draw(t, "nbatches")
-	unique := !keyThis && rapid.IntRange(0, 9).Draw(t, "uniquekeys") < 4
+	nb := ir(t, 1, 4, "nbatches")
+	unique := !keyThis && ir(t, 0, 9, "uniquekeys") < 4
 	info.uniqueKeys = unique
-	messyKeys := !unique && rapid.IntRange(0, 2).Draw(t, "messykeys") > 0
-	nonrec := !unique && rapid.IntRange(0, 5).Draw(t, "nonrecords") == 0
-	info.mixedN = rapid.IntRange(0, 4).Draw(t, "mixedn") == 0
+	messyKeys := !unique && ir(t, 0, 2, "messykeys") > 0
+	nonrec := !unique && ir(t, 0, 5, "nonrecords") == 0
+	info.mixedN = ir(t, 0, 4, "mixedn") == 0
 	var sizes []int
 	total := 0
 	for i := 0; i < nb; i++ {
-		n := rapid.IntRange(1, maxVals).Draw(t, "blen")
+		n := ir(t, 2, maxVals, "blen")
 		sizes = append(sizes, n)
 		total += n
 	}
@@ -119,13 +119,13 @@ func genBatches(t *rapid.T, keyThis bool) ([]gen.Seq, poolInfo) {
 	var batches []gen.Seq
 	next := 0
 	for i := 0; i < nb; i++ {
-		base := rapid.SampledFrom([]int{0, 0, 5, 20, 100}).Draw(t, "base")
-		span := rapid.SampledFrom([]int{2, 8, 40}).Draw(t, "span")
+		base := pickOf(t, "base", []int{0, 0, 5, 20, 100})
+		span := pickOf(t, "span", []int{2, 8, 40})
 		var sb strings.Builder
 		for j := 0; j < sizes[i]; j++ {
 			id := ids[next]
-			if nonrec && rapid.IntRange(0, 9).Draw(t, "nonrec?") == 0 {
-				sb.WriteString(rapid.SampledFrom([]string{`"str" `, `17 `, `null `, `[1,2] `}).Draw(t, "nonrecval"))
+			if nonrec && ir(t, 0, 9, "nonrec?") == 0 {
+				sb.WriteString(pickOf(t, "nonrecval", []string{`"str" `, `17 `, `null `, `[1,2] `}))
 				info.hasNonRec = true
 				next++
 				continue
@@ -140,9 +140,9 @@ func genBatches(t *rapid.T, keyThis bool) ([]gen.Seq, poolInfo) {
 			default:
 				kk := 9
 				if messyKeys {
-					kk = rapid.IntRange(0, 13).Draw(t, "keykind")
+					kk = ir(t, 0, 13, "keykind")
 				}
-				k := base + rapid.IntRange(0, span).Draw(t, "key")
+				k := base + ir(t, 0, span, "key")
 				info.keyLo, info.keyHi = min(info.keyLo, k), max(info.keyHi, k)
 				switch kk {
 				case 0:
@@ -151,7 +151,7 @@ func genBatches(t *rapid.T, keyThis bool) ([]gen.Seq, poolInfo) {
 				case 1:
 					info.hasMissKey = true
 				case 2:
-					fields = append(fields, fmt.Sprintf("k:%q", rapid.SampledFrom([]string{"a", "b", ""}).Draw(t, "skey")))
+					fields = append(fields, fmt.Sprintf("k:%q", pickOf(t, "skey", []string{"a", "b", ""})))
 				case 3:
 					fields = append(fields, fmt.Sprintf("k:%d.", k))
 				case 4:
@@ -164,16 +164,16 @@ func genBatches(t *rapid.T, keyThis bool) ([]gen.Seq, poolInfo) {
 			}
 			fields = append(fields, fmt.Sprintf("id:%d", id))
 			// s
-			switch rapid.IntRange(0, 11).Draw(t, "skind") {
+			switch ir(t, 0, 11, "skind") {
 			case 0:
 				fields = append(fields, "s:null(string)")
 			case 1:
 			default:
-				fields = append(fields, fmt.Sprintf("s:%q", rapid.SampledFrom([]string{"a", "b", "c", ""}).Draw(t, "s")))
+				fields = append(fields, fmt.Sprintf("s:%q", pickOf(t, "s", []string{"a", "b", "c", ""})))
 			}
 			// n
-			nk := rapid.IntRange(0, 13).Draw(t, "nkind")
-			nv := rapid.IntRange(-3, 12).Draw(t, "n")
+			nk := ir(t, 0, 13, "nkind")
+			nv := ir(t, -3, 12, "n")
 			switch {
 			case nk == 0:
 				fields = append(fields, "n:null(int64)")
@@ -188,12 +188,12 @@ func genBatches(t *rapid.T, keyThis bool) ([]gen.Seq, poolInfo) {
 				fields = append(fields, fmt.Sprintf("n:%d", nv))
 			}
 			// f: dyadic rationals, so that float sums are exact whatever the order of the additions
-			if rapid.IntRange(0, 9).Draw(t, "fkind") > 0 {
-				fields = append(fields, fmt.Sprintf("f:%s", fmtQuarter(rapid.IntRange(-32, 32).Draw(t, "f"))))
+			if ir(t, 0, 9, "fkind") > 0 {
+				fields = append(fields, fmt.Sprintf("f:%s", fmtQuarter(ir(t, -32, 32, "f"))))
 			}
 			// a
-			if rapid.IntRange(0, 3).Draw(t, "akind") == 0 {
-				na := rapid.IntRange(0, 3).Draw(t, "alen")
+			if ir(t, 0, 3, "akind") == 0 {
+				na := ir(t, 0, 3, "alen")
 				var el []string
 				for x := 0; x < na; x++ {
 					el = append(el, fmt.Sprint(id*10+x))
@@ -263,15 +263,34 @@ func (s *pst) orderSensitive() {
 	}
 }
 
-func pick(t *rapid.T, label string, list ...string) string {
-	return rapid.SampledFrom(list).Draw(t, label)
+func pick(t *rapid.T, label string, list ...string) string { return pickOf(t, label, list) }
+
+// rapid's integer generators favour small values; choices between alternatives are drawn
+// (approximately) uniformly instead: a raw 64-bit draw, mixed by a bijection with 0 -> 0 so that
+// shrinking still moves towards the first alternative.
+func mix64(z uint64) uint64 {
+	z ^= z >> 30
+	z *= 0xbf58476d1ce4e5b9
+	z ^= z >> 27
+	z *= 0x94d049bb133111eb
+	z ^= z >> 31
+	return z
 }
+
+func ir(t *rapid.T, lo, hi int, label string) int {
+	if hi <= lo {
+		return lo
+	}
+	return lo + int(mix64(rapid.Uint64().Draw(t, label))%uint64(hi-lo+1))
+}
+
+func pickOf[T any](t *rapid.T, label string, list []T) T { return list[ir(t, 0, len(list)-1, label)] }
 
 func (s *pst) has(f string) bool { return s.fields[f] }
 
 func genPred(t *rapid.T, s *pst) string {
 	var cands []string
-	c := rapid.IntRange(-1, 9).Draw(t, "c")
+	c := ir(t, -1, 9, "c")
 	if s.has("n") {
 		cands = append(cands, fmt.Sprintf("n > %d", c), fmt.Sprintf("n <= %d", c), "has(n)", fmt.Sprintf("n == %d", c), fmt.Sprintf("not (n > %d)", c), "n != null")
 	}
@@ -279,11 +298,11 @@ func genPred(t *rapid.T, s *pst) string {
 		cands = append(cands, `s == "a"`, `s != "b"`, `s > "a"`, `has(s)`)
 	}
 	if s.has("k") {
-		kc := rapid.IntRange(s.info.keyLo-1, s.info.keyHi+1).Draw(t, "kc")
+		kc := ir(t, s.info.keyLo-1, s.info.keyHi+1, "kc")
 		cands = append(cands, fmt.Sprintf("k >= %d", kc), fmt.Sprintf("k < %d", kc), fmt.Sprintf("k > %d and k <= %d", kc-5, kc+5), fmt.Sprintf("k != %d", kc), fmt.Sprintf("%d <= k", kc))
 	}
 	if s.has("id") {
-		cands = append(cands, fmt.Sprintf("id %% 3 == %d", rapid.IntRange(0, 2).Draw(t, "m")), fmt.Sprintf("id >= %d", rapid.IntRange(0, s.info.nvals).Draw(t, "idc")))
+		cands = append(cands, fmt.Sprintf("id %% 3 == %d", ir(t, 0, 2, "m")), fmt.Sprintf("id >= %d", ir(t, 0, s.info.nvals, "idc")))
 	}
 	if s.has("f") {
 		cands = append(cands, "f > 0.", "f <= 1.5")
@@ -291,16 +310,16 @@ func genPred(t *rapid.T, s *pst) string {
 	if len(cands) == 0 {
 		return "true"
 	}
-	p := rapid.SampledFrom(cands).Draw(t, "pred")
-	if rapid.IntRange(0, 3).Draw(t, "conj") == 0 {
-		q := rapid.SampledFrom(cands).Draw(t, "pred2")
+	p := pickOf(t, "pred", cands)
+	if ir(t, 0, 3, "conj") == 0 {
+		q := pickOf(t, "pred2", cands)
 		p = "(" + p + ") " + pick(t, "andor", "and", "or") + " (" + q + ")"
 	}
 	return p
 }
 
 func genShape(t *rapid.T, s *pst) {
-	switch rapid.IntRange(0, 9).Draw(t, "shape") {
+	switch ir(t, 0, 9, "shape") {
 	case 0:
 		if s.has("n") {
 			s.add("put x:=n+1")
@@ -324,7 +343,7 @@ func genShape(t *rapid.T, s *pst) {
 			if f == "id" || f == "k" {
 				p = 9
 			}
-			if rapid.IntRange(0, 9).Draw(t, "keep-"+f) < p {
+			if ir(t, 0, 9, "keep-"+f) < p {
 				keep = append(keep, f)
 			}
 		}
@@ -417,11 +436,11 @@ func genAggs(t *rapid.T, s *pst) []string {
 	if s.has("id") {
 		cands = append(cands, "c:=collect(id)", "mi:=max(id)", "si:=sum(id)")
 	}
-	n := rapid.IntRange(1, 3).Draw(t, "naggs")
+	n := ir(t, 1, 3, "naggs")
 	var out []string
 	seen := map[string]bool{}
 	for i := 0; i < n; i++ {
-		a := rapid.SampledFrom(cands).Draw(t, "agg")
+		a := pickOf(t, "agg", cands)
 		name := a
 		if i := strings.Index(a, ":="); i > 0 {
 			name = a[:i]
@@ -459,7 +478,7 @@ func genSummarize(t *rapid.T, s *pst) {
 			keyCands = append(keyCands, []string{"k", "s"}, []string{"s", "k"})
 		}
 	}
-	keys := rapid.SampledFrom(keyCands).Draw(t, "bykeys")
+	keys := pickOf(t, "bykeys", keyCands)
 	poolKeyed := s.class != "multiset" || len(s.ops) == 0
 	_ = poolKeyed
 	// Known findings of C07/C10 (sort-key propagation into summarize) make the sequential reference itself wrong;
@@ -500,7 +519,7 @@ func genSummarize(t *rapid.T, s *pst) {
 		}
 		names = append(names, k)
 	}
-	if len(names) > 0 && rapid.IntRange(0, 2).Draw(t, "sortgroups") > 0 {
+	if len(names) > 0 && ir(t, 0, 2, "sortgroups") > 0 {
 		g := names[0]
 		flag := pick(t, "gsortflag", "", "", "-r ")
 		s.sort = &SortInfo{Prefix: s.text(), Key: []string{g}, Desc: flag == "-r "}
@@ -520,7 +539,7 @@ func genSortKeyed(t *rapid.T, s *pst) bool {
 	if len(cands) == 0 {
 		return false
 	}
-	f := rapid.SampledFrom(cands).Draw(t, "sortfield")
+	f := pickOf(t, "sortfield", cands)
 	flag := pick(t, "sortflag", "", "", "", "-r ", "-r ", "-nulls first ", "-r -nulls first ")
 	s.sort = &SortInfo{Prefix: s.text(), Key: []string{f}, Desc: strings.Contains(flag, "-r"), NullsFirst: strings.Contains(flag, "nulls")}
 	s.add("sort " + flag + f)
@@ -545,20 +564,20 @@ func genProgram(t *rapid.T, info poolInfo) *pst {
 	} else {
 		s.class, s.key = "keyed", []string{"k"}
 	}
-	if rapid.IntRange(0, 9).Draw(t, "lead-filter") < 5 {
+	if ir(t, 0, 9, "lead-filter") < 5 {
 		s.add("where " + genPred(t, s))
 		s.feat("where")
 	}
-	for i, n := 0, rapid.IntRange(0, 2).Draw(t, "nshape"); i < n; i++ {
+	for i, n := 0, ir(t, 0, 2, "nshape"); i < n; i++ {
 		genShape(t, s)
 	}
 	// main operator
-	switch m := rapid.IntRange(-6, 19).Draw(t, "main"); {
-	case m < 0:
+	switch m := ir(t, -3, 24, "main"); {
+	case m < 0 || m >= 23:
 		genSummarize(t, s)
 	case m < 3:
 		// nothing: pool order
-	case m < 6:
+	case m < 8:
 		if s.has("id") && !info.hasNonRec {
 			flag := pick(t, "idsortflag", "", "-r ")
 			s.probes = append(s.probes, Probe{Prog: s.text(), Key: []string{"id"}})
@@ -567,9 +586,9 @@ func genProgram(t *rapid.T, info poolInfo) *pst {
 			s.class, s.key = "total", nil
 			s.feat("sort-total")
 		}
-	case m < 9:
+	case m < 11:
 		genSortKeyed(t, s)
-	case m < 10:
+	case m < 12:
 		if s.has("id") && s.has("s") && !info.hasNonRec {
 			s.probes = append(s.probes, Probe{Prog: s.text(), Key: []string{"id"}})
 			s.add("sort " + pick(t, "mk", "s, id", "n, id", "-r s, id"))
@@ -577,9 +596,9 @@ func genProgram(t *rapid.T, info poolInfo) *pst {
 			s.class, s.key = "total", nil
 			s.feat("sort-multikey")
 		}
-	case m < 16:
+	case m < 19:
 		genSummarize(t, s)
-	case m < 17:
+	case m < 20:
 		if s.has("s") {
 			s.add("yield s | where typeof(this)==<string> | sort this | " + pick(t, "uniq", "uniq", "uniq -c"))
 			s.sort = nil
@@ -587,7 +606,7 @@ func genProgram(t *rapid.T, info poolInfo) *pst {
 			s.fields = map[string]bool{}
 			s.feat("uniq-after-sort")
 		}
-	case m < 18:
+	case m < 21:
 		if s.has("a") {
 			s.add("over a")
 			s.orderSensitive()
@@ -605,13 +624,13 @@ func genProgram(t *rapid.T, info poolInfo) *pst {
 	}
 	// order-sensitive tail operators only behind a total order
 	if s.class == "total" {
-		switch rapid.IntRange(0, 5).Draw(t, "tailop") {
+		switch ir(t, 0, 5, "tailop") {
 		case 0, 1:
-			s.add(fmt.Sprintf("head %d", rapid.IntRange(1, 9).Draw(t, "headn")))
+			s.add(fmt.Sprintf("head %d", ir(t, 1, 9, "headn")))
 			s.orderSensitive()
 			s.feat("head")
 		case 2:
-			s.add(fmt.Sprintf("tail %d", rapid.IntRange(1, 9).Draw(t, "tailn")))
+			s.add(fmt.Sprintf("tail %d", ir(t, 1, 9, "tailn")))
 			s.orderSensitive()
 			s.feat("tail")
 		case 3:
@@ -619,7 +638,7 @@ func genProgram(t *rapid.T, info poolInfo) *pst {
 			s.orderSensitive()
 			s.feat("uniq")
 		}
-		if rapid.IntRange(0, 5).Draw(t, "post") == 0 {
+		if ir(t, 0, 5, "post") == 0 {
 			if rapid.Bool().Draw(t, "postkind") && s.has("n") {
 				s.add("sum(n), count()")
 				s.orderSensitive()
@@ -634,12 +653,12 @@ func genProgram(t *rapid.T, info poolInfo) *pst {
 }
 
 func genCase(t *rapid.T) Case {
-	keyThis := rapid.IntRange(0, 11).Draw(t, "keythis") == 0
+	keyThis := ir(t, 0, 11, "keythis") == 0
 	c := Case{
-		Pool: lakeh.PoolSpec{Name: "p", Key: []string{"k"}, Desc: rapid.Bool().Draw(t, "desc"),
-			Thresh: rapid.SampledFrom([]int64{1, 1, 1, 40, 120, 400}).Draw(t, "thresh"),
-			Stride: rapid.SampledFrom([]int{1, 16, 0}).Draw(t, "stride")},
-		File: rapid.IntRange(0, 3).Draw(t, "filemode") == 0,
+		Pool: lakeh.PoolSpec{Name: "p", Key: []string{"k"}, Desc: (ir(t, 0, 1, "desc") == 1),
+			Thresh: pickOf(t, "thresh", []int64{1, 1, 1, 40, 120, 400}),
+			Stride: pickOf(t, "stride", []int{1, 16, 0})},
+		File: ir(t, 0, 3, "filemode") == 0,
 	}
 	if keyThis {
 		c.Pool.Key = []string{"this"}
@@ -660,9 +679,9 @@ func genCase(t *rapid.T) Case {
 	// every parallelism once through the explicit steps (DAG inspected), then Repeats more runs through
 	// NewLakeQuery at drawn parallelisms (0 = compiler.Parallelism, i.e. GOMAXPROCS at start-up)
 	c.Pars = []int{2, 3, 8, 16}
-	c.Repeats = rapid.IntRange(0, 4).Draw(t, "repeats")
+	c.Repeats = ir(t, 0, 4, "repeats")
 	for i := 0; i < c.Repeats; i++ {
-		c.Pars = append(c.Pars, rapid.SampledFrom([]int{2, 3, 8, 16, 16, 0}).Draw(t, "reppar"))
+		c.Pars = append(c.Pars, pickOf(t, "reppar", []int{2, 3, 8, 16, 16, 0}))
 	}
 	return c
 }
